@@ -1,6 +1,7 @@
 import Martian.Invocation
 import Martian.InvocationStr
 import Martian.JsonBytes
+import Martian.InvocationText
 import Driver.Util
 
 /-!
@@ -195,6 +196,25 @@ def parseKV (p : String) : Option (List UInt8 × List UInt8) :=
     pure (k, v)
   | _ => none
 
+/-- strconv as given by the harness: `<neg>:<m>:<e>=<hex text>,…` (`.` = no float) -/
+def parseG (s : String) : Option Martian.InvocationText.G :=
+  if s == "." then some ⟨fun _ => [], fun _ => ⟨false, 0, 0⟩⟩ else do
+    let tbl ← (s.splitOn ",").mapM fun p =>
+      match p.splitOn "=" with
+      | [f, t] => do
+        let f ← parseFlt f
+        let t ← bytesOfHex t
+        pure (f, t)
+      | _ => none
+    pure ⟨fun f => ((tbl.find? fun p => p.1 == f).map (·.2)).getD [],
+          fun t => ((tbl.find? fun p => p.2 == t).map (·.1)).getD ⟨false, 0, 0⟩⟩
+
+def parseArgStr (s : String) : Option Arg :=
+  match tokens s with
+  | "S" :: r => (parseExpStr (" ".intercalate r)).map .split
+  | "P" :: r => (parseExpStr (" ".intercalate r)).map .plain
+  | _ => none
+
 def handle (op : String) (args : List String) : Option String :=
   match op, args with
   | "convert", [t, j] => do
@@ -239,6 +259,33 @@ def handle (op : String) (args : List String) : Option String :=
   | "unq", [t] => do
     let t ← bytesOfHex t
     pure (optHex (Martian.Lexer.unquoteBytes t))
+  | "textleg", [g, e] => do
+    -- the REAL text leg on one expression: `wf=<b> fok=<b> text=<hex> back=<exp>|none`
+    let g ← parseG g
+    let e ← parseExpStr e
+    let back := match Martian.InvocationText.textLeg g e with
+      | some e' => join (showExp e')
+      | none => "none"
+    pure ("wf=" ++ boolStr (Martian.InvocationText.wfText g e) ++ " fok=" ++
+      boolStr (Martian.InvocationText.floatsOk g e) ++ " text=" ++
+      hexOfBytes (Martian.InvocationText.printExp g e) ++ " back=" ++ back)
+  | "calltext", g :: name :: binds => do
+    -- the REAL text leg on a call: bindings as `<hex id>=<arg>`; `wf=<b> fok=<b> text=<hex> back=<name> <id>=<arg>;…|none`
+    let g ← parseG g
+    let name ← bytesOfHex name
+    let bs ← binds.mapM fun b =>
+      match b.splitOn "=" with
+      | [k, a] => do
+        let k ← bytesOfHex k
+        let a ← parseArgStr a
+        pure (k, a)
+      | _ => none
+    let back := match Martian.InvocationText.callTextLeg g name bs with
+      | some (n, bs') => hexOfBytes n ++ " " ++ ";".intercalate (bs'.map fun b => hexOfBytes b.1 ++ "=" ++ showArg b.2)
+      | none => "none"
+    pure ("wf=" ++ boolStr (Martian.InvocationText.wfCallText g name bs) ++ " fok=" ++
+      boolStr (Martian.InvocationText.floatsOkBinds g bs) ++ " text=" ++
+      hexOfBytes (Martian.InvocationText.printCall g name bs) ++ " back=" ++ back)
   | "encmap", [h, m] => do
     -- sorted-key raw-message map writer: `<khex>:<vhex>,…` (`.` = empty map)
     let h ← if h == "0" then some false else if h == "1" then some true else none
